@@ -1167,6 +1167,12 @@ pub async fn start_rpc_server(
     Ok(handle)
 }
 
+/// Builds the real method table over an engine without the HTTP layer (verification hook).
+#[cfg(feature = "verif")]
+pub(crate) fn verif_methods(engine: BRC20ProgEngine) -> jsonrpsee::Methods {
+    RpcServer { engine }.into_rpc().into()
+}
+
 fn ticker_as_bytes(ticker: &str) -> Bytes {
     let ticker_lowercase = ticker.to_lowercase();
     Bytes::from(ticker_lowercase.as_bytes().to_vec())
